@@ -4,21 +4,20 @@ package decimal
 
 import "math/big"
 
-// H_C03_sep: the single rounding of FMA is observable (vacuity guard for C03).
+// H_C03_sep: the single rounding of FMA is observable (vacuity guard for C03):
+// 1.1*1.1 - 1.2 at two digits is 0.01 fused but 0 when the product is rounded first.
 func H_C03_sep() {
-	p := vCfg("p")
-	x := vDec("x", fFinite, 1, 0, 0)
-	y := vDec("y", fFinite, 1, 0, 0)
-	u := vDec("u", fFinite, 1, 0, 0)
-	x.exp, y.exp, u.exp = 1, 1, 2
-	x.neg, y.neg, u.neg = false, false, false
-	z1 := new(Decimal).SetPrec(uint(p))
-	z2 := new(Decimal).SetPrec(uint(p))
-	t := new(Decimal).SetPrec(uint(p))
+	x := NewDecimal(11, -1)
+	y := NewDecimal(11, -1)
+	u := NewDecimal(-12, -1)
+	z1 := new(Decimal).SetPrec(2)
+	z2 := new(Decimal).SetPrec(2)
+	t := new(Decimal).SetPrec(2)
 	z1.FMA(x, y, u)
 	t.Mul(x, y)
 	z2.Add(t, u)
 	vWitness("C03.separation", z1.Cmp(z2) != 0)
+	vAssert("C03.sep.fused", vAnd(z1.form == finite, z2.form == zero))
 	vReach("end")
 }
 
